@@ -7,30 +7,6 @@ import MorfuseModel.Lang.PrecCongr
 namespace Morfuse.Props.C03
 open Morfuse.Lang Morfuse.Lang.IntEnc Morfuse.Gen.IntEnc
 
-/-- what the emitter does with a literal, spelled out: the chosen opcode's decoder reads exactly the
-    bytes written, unsigned, into a parameter wide enough for them -/
-theorem encode_spec (v : BitVec 64) :
-    ∃ k w p, encodeInt v = ⟨k, toBytes v.toNat w⟩ ∧ v.toNat < 256 ^ w ∧ 256 ^ w ≤ 2 ^ p ∧
-      findDecoder k vmDecoders = some (w, false, p, false) ∧
-      findDecoder k foldDecoders = some (w, false, p, false) := by
-  have hv : v.toNat < 2 ^ 64 := v.isLt
-  by_cases h0 : v.toNat = 0
-  · exact ⟨0, 0, 32, by simp [encodeInt, emitZeroFirst, h0, toBytes], by simp [h0], by decide, by decide, by decide⟩
-  · by_cases h1 : v.toNat < 256
-    · exact ⟨1, 1, 32, by simp [encodeInt, emitZeroFirst, h0, emitBranches, firstBranch, h1], by simpa using h1,
-        by decide, by decide, by decide⟩
-    · by_cases h2 : v.toNat < 65536
-      · exact ⟨2, 2, 32, by simp [encodeInt, emitZeroFirst, h0, emitBranches, firstBranch, h1, h2], by simpa using h2,
-          by decide, by decide, by decide⟩
-      · by_cases h3 : v.toNat < 16777216
-        · exact ⟨3, 3, 32, by simp [encodeInt, emitZeroFirst, h0, emitBranches, firstBranch, h1, h2, h3],
-            by simpa using h3, by decide, by decide, by decide⟩
-        · by_cases h4 : v.toNat < 4294967296
-          · exact ⟨4, 4, 32, by simp [encodeInt, emitZeroFirst, h0, emitBranches, firstBranch, h1, h2, h3, h4],
-              by simpa using h4, by decide, by decide, by decide⟩
-          · exact ⟨8, 8, 64, by simp [encodeInt, emitZeroFirst, h0, emitBranches, firstBranch, h1, h2, h3, h4, emitElse],
-              by simpa using hv, by decide, by decide, by decide⟩
-
 /-- **C03, literal values.**  Every 64-bit literal survives the compiler's choice of encoding and the
     VM's decoding: `OP_STORE_INTk` with the bytes `EmitInteger` wrote pushes the value that was written. -/
 theorem C03_literal_roundtrip (v : BitVec 64) : decodeInt (encodeInt v) = some v := by
